@@ -71,4 +71,5 @@ def main():
                     f"{', '.join(hit) or 'NOT REPORTED'}{' (held under: ' + ', '.join(miss) + ')' if miss else ''}{' ' + ' '.join(other) if other else ''} | {obl[:160]} |")
     open(ROOT + '/MATRIX.md', 'w').write('# Which check reports which seeded change\n\n' + '\n'.join(rows) + '\n')
 
-main()
+if __name__ == "__main__":
+    main()
